@@ -14,22 +14,35 @@ type headerVariant struct {
 	Value string
 	Class string // "ap", "not", "unspecified"
 	Set   bool
+	// List: a comma-separated list, which is an Accept value but no
+	// Content-Type: unspecified on POST endpoints
+	List bool
 }
 
 func headerVariants() []headerVariant {
 	return []headerVariant{
-		{"application/activity+json", "ap", true},
-		{`application/ld+json; profile="https://www.w3.org/ns/activitystreams"`, "ap", true},
-		{`application/ld+json;profile=https://www.w3.org/ns/activitystreams`, "ap", true},
-		{`text/html, application/ld+json ; profile="https://www.w3.org/ns/activitystreams", */*;q=0.1`, "ap", true},
-		{"", "not", false},
-		{"", "not", true},
-		{"text/html", "not", true},
-		{"application/json", "not", true},
-		{"*/*", "not", true},
-		{`application/ld+json; profile="https://example.com/other"`, "not", true},
-		{"application/ld+json", "unspecified", true},
-		{"Application/Activity+JSON", "unspecified", true},
+		{"application/activity+json", "ap", true, false},
+		{`application/ld+json; profile="https://www.w3.org/ns/activitystreams"`, "ap", true, false},
+		{`application/ld+json;profile=https://www.w3.org/ns/activitystreams`, "ap", true, false},
+		{`text/html, application/ld+json ; profile="https://www.w3.org/ns/activitystreams", */*;q=0.1`, "ap", true, true},
+		{"", "not", false, false},
+		{"", "not", true, false},
+		{"text/html", "not", true, false},
+		{"application/json", "not", true, false},
+		{"*/*", "not", true, false},
+		{`application/ld+json; profile="https://example.com/other"`, "not", true, false},
+		{"application/ld+json", "unspecified", true, false},
+		{"Application/Activity+JSON", "unspecified", true, false},
+		// the other spacings and quotings the library documents
+		{`application/ld+json;profile="https://www.w3.org/ns/activitystreams"`, "ap", true, false},
+		{`application/ld+json; profile=https://www.w3.org/ns/activitystreams`, "ap", true, false},
+		{`application/ld+json ;profile="https://www.w3.org/ns/activitystreams"`, "ap", true, false},
+		{`application/ld+json ;profile=https://www.w3.org/ns/activitystreams`, "ap", true, false},
+		{`application/ld+json ; profile=https://www.w3.org/ns/activitystreams`, "ap", true, false},
+		// the media type with a parameter, and inside a list
+		{"application/activity+json; charset=utf-8", "ap", true, false},
+		{"application/activity+json, application/ld+json;q=0.9", "ap", true, true},
+		{`application/ld+json; charset=utf-8; profile="https://www.w3.org/ns/activitystreams"`, "unspecified", true, false},
 	}
 }
 
@@ -65,6 +78,20 @@ func bodyVariants(kind string, valid interface{}) []struct {
 	out = append(out, bv{"nonjson", nil, "this is {not json"})
 	out = append(out, bv{"unknown-type", M{"@context": AS, "type": "FrobnicateThing", "id": R1 + "/act/u1", "actor": carol()}, ""})
 	out = append(out, bv{"bare-object", withCtx(note(R1+"/notes/bare", M{"to": alice(), "attributedTo": carol()})), ""})
+	if vm, ok := valid.(M); ok && kind == "PostInbox" {
+		// nobody to ask the block check about: no actor, an empty list, an
+		// embedded actor without id
+		for i, av := range []interface{}{nil, A{}, M{"type": "Person", "name": "no id"}} {
+			var c M
+			mustRoundTrip(vm, &c)
+			if av == nil {
+				delete(c, "actor")
+			} else {
+				c["actor"] = av
+			}
+			out = append(out, bv{[]string{"no-actor", "empty-actor", "idless-actor"}[i], c, ""})
+		}
+	}
 	// JSON that is not an object, an object without type / @context, a type
 	// list naming nothing the vocabularies define
 	out = append(out, bv{"not-an-object", nil, pickRaw(kind, "null", "[]", "\"a string\"", "5")})
@@ -87,6 +114,7 @@ func productFor(base *sim.Scenario, name string, full bool, g *prng.R, emit func
 	methods := []string{"GET", "POST", "PUT", "DELETE", "HEAD", "get", "post", "Post", "Get", "PATCH", "OPTIONS"}
 	hv := headerVariants()
 	protoCombos := [][2]bool{{true, true}, {true, false}, {false, true}, {false, false}}
+	rot := g.Intn(16) // which body meets which header / outcome differs from seed to seed
 	var bodies []struct {
 		Class string
 		Body  interface{}
@@ -112,7 +140,7 @@ func productFor(base *sim.Scenario, name string, full bool, g *prng.R, emit func
 						for bi, b := range bodies {
 							if !full {
 								// quick tier: rotate body and thin out the not-AP rows
-								if bi != (hi+auth+block+len(method))%len(bodies) {
+								if bi != (hi+auth+block+len(method)+rot)%len(bodies) {
 									continue
 								}
 								if h.Class == "not" && method != "POST" && method != "GET" && g.Chance(2, 3) {
@@ -122,7 +150,24 @@ func productFor(base *sim.Scenario, name string, full bool, g *prng.R, emit func
 							sc := cloneScenario(base)
 							sc.Name = name
 							sc.Cfg.Social, sc.Cfg.Federating = pc[0], pc[1]
-							sc.Cfg.AuthGetInbox, sc.Cfg.AuthGetOutbox, sc.Cfg.AuthPostInbox, sc.Cfg.AuthPostOutbox = auth, auth, auth, auth
+							// the endpoint's own hook gives this outcome, the
+							// hooks of the other endpoints another one
+							am := auth
+							if auth == 2 && (hi+bi)%2 == 1 {
+								am = 3 // (authenticated=true, error): still an error
+							}
+							o := (auth + 1) % 3
+							sc.Cfg.AuthGetInbox, sc.Cfg.AuthGetOutbox, sc.Cfg.AuthPostInbox, sc.Cfg.AuthPostOutbox = o, o, o, o
+							switch rq.Kind {
+							case "GetInbox":
+								sc.Cfg.AuthGetInbox = am
+							case "GetOutbox":
+								sc.Cfg.AuthGetOutbox = am
+							case "PostInbox":
+								sc.Cfg.AuthPostInbox = am
+							case "PostOutbox":
+								sc.Cfg.AuthPostOutbox = am
+							}
 							sc.Cfg.Blocked = block
 							r := sc.Requests[0]
 							r.Method = method
@@ -150,6 +195,8 @@ func productFor(base *sim.Scenario, name string, full bool, g *prng.R, emit func
 							switch {
 							case method != wantMethod || h.Class == "not":
 								exp.AP = "no"
+							case h.Class == "ap" && h.List && isPost:
+								exp.AP = "unspecified" // a list is no Content-Type
 							case h.Class == "ap":
 								exp.AP = "yes"
 							default:
